@@ -141,26 +141,24 @@ impl GraphBlock {
                     .join("\n")
                     + "\n"
             }
+            // an item that renders to nothing (its only content was an empty quote, an empty
+            // heading or a dropped html block) is left out: blank lines in its place would
+            // disappear on the next pass and renumber the items after it
             GraphBlock::OrderedList(items) => items
                 .iter()
+                .map(|item| blocks_to_markdown_and(item, self.is_sparce_list(), options))
+                .filter(|text| !text.trim().is_empty())
                 .enumerate()
-                .map(|(n, item)| {
-                    left_pad_and_prefix_num(
-                        &blocks_to_markdown_and(item, self.is_sparce_list(), options),
-                        n + 1,
-                        if alternate { ')' } else { '.' },
-                    )
+                .map(|(n, text)| {
+                    left_pad_and_prefix_num(&text, n + 1, if alternate { ')' } else { '.' })
                 })
                 .collect::<Vec<String>>()
                 .join(if self.is_sparce_list() { "\n" } else { "" }),
             GraphBlock::BulletList(items) => items
                 .iter()
-                .map(|item| {
-                    left_pad_and_prefix(
-                        &blocks_to_markdown_and(item, self.is_sparce_list(), options),
-                        if alternate { '*' } else { '-' },
-                    )
-                })
+                .map(|item| blocks_to_markdown_and(item, self.is_sparce_list(), options))
+                .filter(|text| !text.trim().is_empty())
+                .map(|text| left_pad_and_prefix(&text, if alternate { '*' } else { '-' }))
                 .collect::<Vec<String>>()
                 .join(if self.is_sparce_list() { "\n" } else { "" }),
             GraphBlock::Header(level, inlines) => {
